@@ -69,6 +69,9 @@ pub struct Beh {
 	/// tolerated irregularities: extra bytes after the last event, inside the raw element
 	#[serde(default)]
 	pub junk: usize,
+	/// tolerated irregularities: unknown (declared) events after Game End: before its duplicate / after it
+	#[serde(default)]
+	pub tail_unk: [usize; 2],
 }
 
 pub const FILE_SIGNATURE: [u8; 11] = [0x7b, 0x55, 0x03, 0x72, 0x61, 0x77, 0x5b, 0x24, 0x55, 0x23, 0x6c];
@@ -383,10 +386,17 @@ fn table_code(l: &Layout, kind: &str) -> u8 {
 /// when the file doubles it.
 pub fn file_events(beh: &Beh) -> Vec<AEvent> {
 	let mut evs = beh.hist.clone();
+	let unk = |n: usize| AEvent { k: "unk".into(), id: 0, p: 0, f: 0, x: 64, tok: 900_000 + n };
+	for i in 0..beh.tail_unk[0] {
+		evs.push(unk(i));
+	}
 	if beh.file_end == "double" {
 		if let Some(ge) = beh.hist.iter().find(|e| e.k == "ge") {
 			evs.push(ge.clone());
 		}
+	}
+	for i in 0..beh.tail_unk[1] {
+		evs.push(unk(100 + i));
 	}
 	evs
 }
